@@ -61,11 +61,6 @@ func (ck *c31Checker) websiteReadExempt(rq c31Req, resp *respInfo, c sCall, call
 	if rq.Spec.Method == "HEAD" {
 		asHead.Method = "HeadObject" // a HEAD request is authorized as HeadObject even where it opens the document
 	}
-	if cfg.ErrorDocumentKey != nil && *cfg.ErrorDocumentKey == c.Key && resp.Status >= 400 {
-		if ok1, _ := authorizedBefore(asHead, auth, true); ok1 {
-			return "website-error-document"
-		}
-	}
 	if c.Method == "HeadObject" && cfg.IndexDocumentSuffix != "" && (resp.Status == 302 || resp.Status >= 400) {
 		for _, p := range calls {
 			if p.Seq >= c.Seq || p.Err == "" || p.Bucket != c.Bucket || p.Key == "" || strings.HasSuffix(p.Key, "/") {
